@@ -39,6 +39,10 @@ def run(ctx):
     clr = [a for a in tg if q.is_zero(a.rhs)]
     ctx.need(len(flip) == 1 and len(clr) == 1 and len(tg) == 2, 'expected_data_toggle has exactly a flip and a clear writer')
     leaves = q.bool_leaves(ack.rhs, nak.rhs, *[l.e for l in flip[0].guard])
+    # the toggle guard may name the handshake outputs themselves: they are combinational, their value is the value of
+    # their defining expression (computed per valuation below), not a free condition
+    ACKN, NAKN = I + 'handshakes_out.ack', I + 'handshakes_out.nak'
+    leaves = [l for l in leaves if l not in (ACKN, NAKN)]
     known = {EPM, OUT, PING, RFR, TRFR, MATCH, NEXT, VALID, FULL, OVF, SPACE}
     ctx.need(set(leaves) <= known, 'conditions of the ack/nak expressions are the known ones (unexpected: %s)' % sorted(set(leaves) - known))
     leaves = sorted(known)          # enumerate every condition of the specification, present in the code or not
@@ -57,7 +61,7 @@ def run(ctx):
         want_ack = (data_resp and accepted) or (data_resp and skip) or (ping_resp and g(SPACE))
         want_nak = (data_resp and not accepted and not skip) or (ping_resp and not g(SPACE))
         a, k = q.eval_expr(ack.rhs, asg), q.eval_expr(nak.rhs, asg)
-        f = q.eval_guard(flip[0], asg)
+        f = q.eval_guard(flip[0], dict(asg, **{ACKN: bool(a), NAKN: bool(k)}))
         if a != want_ack and bad_ack is None:
             bad_ack = (asg, a, want_ack)
         if k != want_nak and bad_nak is None:
